@@ -23,7 +23,8 @@ RULE = ("eps-NFA / PDA / FST objects whose values are JSON-representable (ints, 
         "give the same production set; RecursiveAutomaton.from_regex / from_ebnf over texts rendered from regex ASTs "
         "(repeated heads, empty bodies, unions, stars): one box per head, start box = start non-terminal, each box "
         "exactly equivalent to the union of the reference denotations of its right-hand sides. "
-        "Non-trivial: object has >=2 transitions / productions; distinct = case hash.")
+        "Non-trivial: object has >=2 transitions / productions; distinct = case hash."
+        " Later additions: label-like symbols ('a->b', '/'), a state called 'starting_' + the name of a start state, one lower-case token naming a variable and a terminal, EBNF alternatives that differ only in blanks.")
 ASSUMPTIONS = ["values are restricted as the property's quantifier says (no epsilon spellings, no ' -> ' / ' / ')"]
 TIERS = {
     "quick": {"workers": 8, "random": 3000},
